@@ -25,7 +25,7 @@ import (
 )
 
 type Clause struct {
-	Loc   *Node // onwrite: the watched location
+	Loc   *Node  // onwrite: the watched location
 	Kind  string // requires ensures invariant modifies assume
 	Label string
 	Text  string
@@ -33,6 +33,7 @@ type Clause struct {
 	Line  int
 	File  string
 	Props []string // optional clause-level restriction
+	NoCover bool   // label ended in "?": the antecedent may be unreachable for some functions (contract templates)
 }
 
 type LoopSpec struct {
@@ -44,39 +45,39 @@ type LoopSpec struct {
 }
 
 type FuncSpec struct {
-	Key      string // pkgpath.(*T).Name or pkgpath.Name ; iface: pkgpath.T.Name
-	Pkg      string
-	Recv     string // receiver contract-local name
-	Params   []string
-	Results  []string
-	Props    []string
-	Requires []*Clause
-	Ensures  []*Clause
-	Modifies []*Clause
-	HasMod   bool
-	ModHeap  bool // modifies heap: every non-ghost component may change
-	Panics   string // "", "never", "may"
-	Pure     bool
-	Assumed  bool
-	Conc     bool
-	ConcProps []string  // properties under which the function is verified in thread-modular (volatile) mode
-	Shared   []*Clause // shared locations: may change before every atomic access in that mode
-	OnWrites []*Clause // onwrite[label] loc: cond — checked right after each atomic write to loc (new/prev bound)
-	IsIface  bool
-	Stable   bool // pure and independent of the heap (function of receiver and arguments only)
+	Key        string // pkgpath.(*T).Name or pkgpath.Name ; iface: pkgpath.T.Name
+	Pkg        string
+	Recv       string // receiver contract-local name
+	Params     []string
+	Results    []string
+	Props      []string
+	Requires   []*Clause
+	Ensures    []*Clause
+	Modifies   []*Clause
+	HasMod     bool
+	ModHeap    bool   // modifies heap: every non-ghost component may change
+	Panics     string // "", "never", "may"
+	Pure       bool
+	Assumed    bool
+	Conc       bool
+	ConcProps  []string  // properties under which the function is verified in thread-modular (volatile) mode
+	Shared     []*Clause // shared locations: may change before every atomic access in that mode
+	OnWrites   []*Clause // onwrite[label] loc: cond — checked right after each atomic write to loc (new/prev bound)
+	IsIface    bool
+	Stable     bool // pure and independent of the heap (function of receiver and arguments only)
 	IsCallback bool
-	NoInline bool
-	Unroll   bool
-	Loops    map[string]*LoopSpec
-	File     string
-	Line     int
-	Lets     []*Clause // let name = expr (evaluated in pre-state)
-	Cases    []*Clause // case name: cond — the function is verified once per case, cond added to requires
-	Sets     []*Clause // sets g = expr: ghost assignment performed at the normal return
-	Uses     []*Clause // use lemma(args): instantiate a proved lemma before the postconditions
-	Wits     []*Clause // witness name = expr (reported from counterexamples)
-	Replay   string
-	ReplayFor map[string]string // label substring -> template
+	NoInline   bool
+	Unroll     bool
+	Loops      map[string]*LoopSpec
+	File       string
+	Line       int
+	Lets       []*Clause // let name = expr (evaluated in pre-state)
+	Cases      []*Clause // case name: cond — the function is verified once per case, cond added to requires
+	Sets       []*Clause // sets g = expr: ghost assignment performed at the normal return
+	Uses       []*Clause // use lemma(args): instantiate a proved lemma before the postconditions
+	Wits       []*Clause // witness name = expr (reported from counterexamples)
+	Replay     string
+	ReplayFor  map[string]string // label substring -> template
 }
 
 type GhostVar struct {
@@ -102,23 +103,31 @@ type Lemma struct {
 	IndVar   string
 	Requires []*Clause
 	Ensures  []*Clause
-	Name  string
-	Props []string
-	Expr  *Node
-	Text  string
-	Pkg   string
-	File  string
-	Line  int
+	Name     string
+	Props    []string
+	Expr     *Node
+	Text     string
+	Pkg      string
+	File     string
+	Line     int
 }
 
 type SpecDB struct {
-	Funcs  map[string]*FuncSpec
-	Ghosts map[string]*GhostVar
-	SFuncs map[string]*SpecFunc
-	Lemmas []*Lemma
-	Order  []string
-	UFuncs map[string]*UFunc
+	Funcs    map[string]*FuncSpec
+	Ghosts   map[string]*GhostVar
+	SFuncs   map[string]*SpecFunc
+	Lemmas   []*Lemma
+	Order    []string
+	UFuncs   map[string]*UFunc
 	PoolInvs map[string]*Clause // type string -> invariant over `it` of pooled objects
+	Autos    []*AutoSpec        // contract templates applied to every function that calls a given function
+}
+
+// AutoSpec: "//@ autofunc calls KEY" — the clauses that follow are given to every function of the loaded packages
+// whose body calls KEY directly (merged into an explicit contract of that function when there is one).
+type AutoSpec struct {
+	Calls string
+	Spec  *FuncSpec
 }
 
 // UFunc is an uninterpreted ghost function: //@ ghost func name(Int, Real) Int
@@ -141,7 +150,7 @@ func newSpecDB0() *SpecDB {
 
 var clauseKw = map[string]bool{"requires": true, "ensures": true, "modifies": true, "panics": true, "props": true,
 	"loop": true, "invariant": true, "pure": true, "stable": true, "assumed": true, "concurrent": true, "noinline": true, "unroll": true, "let": true, "decreases": true, "witness": true, "replay": true, "case": true, "use": true, "objinv": true, "sets": true, "shared": true, "onwrite": true, "always": true}
-var topKw = map[string]bool{"poolinv": true, "ilemma": true, "func": true, "extern": true, "iface": true, "callback": true, "ghost": true, "spec": true, "lemma": true}
+var topKw = map[string]bool{"poolinv": true, "ilemma": true, "func": true, "extern": true, "autofunc": true, "iface": true, "callback": true, "ghost": true, "spec": true, "lemma": true}
 
 func firstWord(s string) (string, string) {
 	s = strings.TrimSpace(s)
@@ -283,8 +292,27 @@ func (db *SpecDB) loadFile(path, pkgPath string) error {
 			}
 			db.Lemmas = append(db.Lemmas, lm)
 			cur, curLemma = nil, lm
+		case "autofunc":
+			f := strings.Fields(rest)
+			if len(f) != 2 || f[0] != "calls" {
+				return fail("autofunc calls KEY")
+			}
+			fs := &FuncSpec{Key: "auto:" + f[1], Pkg: pkgPath, File: path, Line: it.line}
+			db.Autos = append(db.Autos, &AutoSpec{Calls: f[1], Spec: fs})
+			cur, curLoop = fs, nil
 		case "func", "iface", "callback", "extern":
-			fs, err := parseHeader(strings.TrimSpace(rest), pkgPath, w == "iface")
+			var fs *FuncSpec
+			var err error
+			if hdr := strings.TrimSpace(rest); w == "extern" && strings.HasPrefix(hdr, "(") {
+				// extern (*full/pkg.Type).Method(recv, params) results — the first name binds the receiver
+				fs, err = parseExternMethod(hdr)
+			} else {
+				fs, err = parseHeader(hdr, pkgPath, w == "iface")
+			}
+			if err == nil && w == "callback" && strings.Contains(fs.Key, "/") && strings.HasPrefix(fs.Key, pkgPath+".") && strings.Contains(strings.TrimPrefix(fs.Key, pkgPath+"."), "/") {
+				// a named function type of another module: the name is the full key
+				fs.Key = strings.TrimPrefix(fs.Key, pkgPath+".")
+			}
 			if err == nil && w == "extern" {
 				// a function of another module (standard library, dependency): the name is the full key, the contract is assumed
 				fs.Key = strings.TrimPrefix(fs.Key, pkgPath+".")
@@ -537,6 +565,9 @@ func (db *SpecDB) loadFile(path, pkgPath string) error {
 					cur.Requires = append(cur.Requires, c)
 					curLoop = nil
 				case "ensures":
+					if strings.HasSuffix(c.Label, "?") {
+						c.Label, c.NoCover = strings.TrimSuffix(c.Label, "?"), true
+					}
 					cur.Ensures = append(cur.Ensures, c)
 					curLoop = nil
 				case "invariant":
@@ -625,6 +656,42 @@ func parseHeader(s, pkgPath string, iface bool) (*FuncSpec, error) {
 	return fs, nil
 }
 
+func parseExternMethod(s string) (*FuncSpec, error) {
+	j := strings.Index(s, ").")
+	if j < 0 {
+		return nil, fmt.Errorf("extern (*pkg.Type).Method(recv, params)")
+	}
+	k := strings.Index(s[j:], "(")
+	if k < 0 {
+		return nil, fmt.Errorf("missing parameter list")
+	}
+	k += j
+	fs := &FuncSpec{Key: strings.TrimSpace(s[:k])}
+	e := strings.Index(s[k:], ")")
+	if e < 0 {
+		return nil, fmt.Errorf("missing )")
+	}
+	e += k
+	for i, p := range strings.Split(s[k+1:e], ",") {
+		if p = strings.TrimSpace(p); p != "" {
+			if i == 0 {
+				fs.Recv = p
+			} else {
+				fs.Params = append(fs.Params, p)
+			}
+		}
+	}
+	if fs.Recv == "" {
+		return nil, fmt.Errorf("extern method needs a receiver name")
+	}
+	for _, p := range strings.Split(strings.Trim(strings.TrimSpace(s[e+1:]), "()"), ",") {
+		if p = strings.TrimSpace(p); p != "" {
+			fs.Results = append(fs.Results, p)
+		}
+	}
+	return fs, nil
+}
+
 // parseSpecFunc: "func name(a Int, b Real) Bool = expr"
 func parseSpecFunc(s, pkgPath string) (*SpecFunc, error) {
 	rec := false
@@ -660,7 +727,7 @@ func parseSpecFunc(s, pkgPath string) (*SpecFunc, error) {
 		return nil, fmt.Errorf("bad spec func")
 	}
 	sf := &SpecFunc{Name: strings.TrimSpace(s[:j]), Pkg: pkgPath, Rec: rec}
-	for _, p := range splitTop(s[j+1:k]) {
+	for _, p := range splitTop(s[j+1 : k]) {
 		f := strings.Fields(p)
 		if len(f) == 0 {
 			continue
